@@ -35,6 +35,42 @@ CLAIMS = {
         "the file does not fail; format writers consume the frame iterator with a plain loop.",
         "DESIGN.md §5 C08",
     ),
+    "C07": (
+        "Lean theorems over ALL parser behaviours for the API funnel: load_one_funnel / load_many_funnel (any sequence of "
+        "next(lit)/lit.back() calls incl. reading past the end, the parser or IOData(**dict) returning or raising any "
+        "class at any point, any number of frames, PEP 479 inside generator parsers, the user exhausting or discarding "
+        "after k frames; load_many by induction over the frames): the outcome is an object / LoadError (or a "
+        "non-Exception such as KeyboardInterrupt), the file was opened once and the last event is its close, a "
+        "funnel-made LoadError carries lineno = #next - #back (lineiterator_lineno for every op sequence); selection "
+        "failure before the file is opened; an unstarted load_many opens nothing. The terms extracted from api.py on "
+        "every run are tied to the reference terms by decide; the semantics is tied to the real load_one/load_many by "
+        "running them against scripted parsers (outcome class, lineno, event trace, fd delta). PARTIAL: termination and "
+        "outcome classes of the 25 format parsers on arbitrary content are NOT proved; they are covered by direct search "
+        "(truncation at line boundaries and seeded mutations of ~140 corpus files: outcome in {object, LoadError, "
+        "FileFormatError}, consistent per-atom shapes, message names the file, lineno = #next - #back, file closed, "
+        "per-load time limit) which is exploration, not proof.",
+        "Lean 4 proof (induction over line operations and frames) over a control-flow IR extracted from api.py + "
+        "model-vs-code correspondence + corpus-mutation search for the unmodelled parsers",
+        "Modelled: Python try/except, with, generators (PEP 479, close()). LineIterator counts a failed read at end of "
+        "file (lineno = N+1 there).",
+        "DESIGN.md §5 C07",
+    ),
+    "C18": (
+        "Lean theorems by kernel evaluation over the terms, signatures and argparse table extracted from __main__.py / "
+        "api.py on every run: convert is exactly dump_one(load_one(..)) / dump_many(load_many(..)) (flow_matches_convert), "
+        "Python's argument binding applied to the extracted calls and signatures sends infn/infmt to load_*, "
+        "outfn/outfmt/allow_changes to dump_* (argument_binding_one/_many, for symbolic values; swapping infmt/outfmt "
+        "falsifies it), main = np.seterr; parse_args; convert with the parsed options bound to the parameters of the same "
+        "meaning (main_binding, argparse_table), the API names are imported from .api and never re-bound, nothing is "
+        "caught (cli_catches_nothing: any API exception = non-zero exit), and with C08 a pre-flight rejection leaves an "
+        "existing output untouched (cli_preflight_spares_output). The model of binding/argparse is tied to the real "
+        "main() by an in-process correspondence (all option spellings/orders, usage errors); `python -m iodata` as a "
+        "subprocess is compared with the API calls on (corpus file, target) pairs: exit status, output bytes, stderr.",
+        "Lean 4 kernel evaluation over extracted IR/signatures + C08 composition + in-process and subprocess correspondence",
+        "Modelled: argparse for the option kinds used; numpy FP traps never change a returned value; an uncaught "
+        "exception ends the interpreter with status 1.",
+        "DESIGN.md §5 C18",
+    ),
     "C10": (
         "Lean theorems over ALL label lists (any element type with decidable equality): success iff the conventions name "
         "the same functions once each; pointwise spec (position + sign product); permutation; reverse = opposite "
